@@ -34,10 +34,18 @@ MASK_DTYPES = {"bool": np.bool_, "uint8": np.uint8, "int64": np.int64}
 # ----------------------------------------------------------------------------------------
 # building numpy inputs from a case description (the description is the replay)
 # ----------------------------------------------------------------------------------------
+_BUFFERS = {}   # callers re-fill one raster buffer in place between calls (tiles, basins of one mosaic)
+
+
 def build_data(desc):
     shape = tuple(desc["shape"])
     if desc["fmt"] in ("d8", "ldd"):
-        return np.array(desc["codes"], dtype=np.uint8).reshape(shape)
+        a = np.array(desc["codes"], dtype=np.uint8).reshape(shape)
+        if desc.get("reuse_buffer"):
+            buf = _BUFFERS.setdefault(shape, np.zeros(shape, dtype=np.uint8))
+            np.copyto(buf, a)
+            return buf
+        return a
     xs = np.array(desc["xs"], dtype=np.int32).reshape(shape)
     ys = np.array(desc["ys"], dtype=np.int32).reshape(shape)
     if desc.get("form") == "tuple":
@@ -484,6 +492,8 @@ def run(ctx):
         if rng.random() < 0.5:
             rand_mask(rng, d, ctx)
         pick_ft(rng, d, ctx)
+        if d["fmt"] != "nextxy" and rng.random() < 0.5:
+            d["reuse_buffer"] = True
         dispatch(ctx, d)
         if len(ctx.cases) > 500:
             ctx.flush()
@@ -511,6 +521,9 @@ def run(ctx):
         ctx.count("shape:" + ("1xN" if shape[0] == 1 else "Nx1" if shape[1] == 1 else "RxC"))
         rand_mask(rng, desc, ctx)
         pick_ft(rng, desc, ctx)
+        if fmt != "nextxy" and rng.random() < 0.5:
+            desc["reuse_buffer"] = True     # the same ndarray object is re-filled in place from case to case
+            ctx.count("reused-buffer")
         dispatch(ctx, desc)
         if len(ctx.cases) > 500:
             ctx.flush()
